@@ -395,8 +395,12 @@ package compile
 // against the target AS LEFT BY the properties before it, then applied - so that the outcome equals editing the
 // target's source property by property. Ghost counters: devChecked = properties accepted by isAllowed so far,
 // devApplied = properties applied so far.
+//@ func (*Compiler).getExtCardinality
+//@   nopanic
+//@   ensures result != nil
 //@ func (deviateProcessor).isAllowed
 //@   params target property ec
+//@   requires ec != nil
 //@   requires ghost("devChecked") == ghost("devApplied")
 //@   modifies ghost("devChecked")
 //@   ensures implies(result == nil, ghost("devChecked") == old(ghost("devChecked")) + 1) && implies(result != nil, ghost("devChecked") == old(ghost("devChecked")))
@@ -544,7 +548,7 @@ package compile
 //@   ensures implies(node_type(property) == parse.NodeUnits || node_type(property) == parse.NodeDefault || node_type(property) == parse.NodeMust || node_type(property) == parse.NodeUnique, result == nil)
 //@   ensures implies(node_type(property) == parse.NodeTyp || node_type(property) == parse.NodeConfig || node_type(property) == parse.NodeMandatory || node_type(property) == parse.NodeMinElements || node_type(property) == parse.NodeMaxElements, result != nil)
 //@ func (*deviateReplace).isAllowed
-//@   requires property != nil
+//@   requires property != nil && ec != nil
 //@   modifies *
 //@   ensures implies(node_type(property) == parse.NodeTyp || node_type(property) == parse.NodeUnits || node_type(property) == parse.NodeDefault || node_type(property) == parse.NodeConfig || node_type(property) == parse.NodeMandatory || node_type(property) == parse.NodeMinElements || node_type(property) == parse.NodeMaxElements, result == nil)
 //@ func (*deviateReplace).propertyAction
@@ -552,7 +556,7 @@ package compile
 //@   modifies *
 //@   ensures implies(node_type(property) != parse.NodeUnknown, iff(result == nil, node_nchildren_of(target, node_type(property)) != 0))
 //@ func (*deviateAdd).isAllowed
-//@   requires target != nil && property != nil
+//@   requires target != nil && property != nil && ec != nil
 //@   modifies *
 //@   ensures implies(stdProp(node_type(property)) && node_cardend(target, node_type(property)) == '0', result != nil)
 //@   ensures implies(stdProp(node_type(property)) && node_cardend(target, node_type(property)) == 'n', result == nil)
